@@ -49,7 +49,40 @@ WORDS = [
     "0+0", "0-0", "0.+0", "0e", ".0", "-.0e-0", "0000.00c", "0000.00m", "1000.00m", "1E5", "1D5", "1d5", "1_0", "inf", "nan", "infinity", "1e5_0", "٣", "é",
 ]
 
-_DRV = None
+# theorems of lean/MontePyVerif/Props/C12Lexer.lean (namespace MontePyVerif.C12Lexer), audited by prove()
+THEOREMS = [
+    "re_suffix",
+    "re_prefix",
+    "ends_lt_of_not_nullable",
+    "repEnds_fuel",
+    "m_eq_findSome",
+    "matchFront_eq_spec",
+    "lex_lossless",
+    "lex_prefix",
+    "lex_nonempty",
+    "lex_fuel",
+    "lex_values_lossless",
+    "tokenize_lossless",
+    "number_null",
+    "number_token_nonzero",
+    "lex_literal_tokens",
+    "lex_error",
+    "generated_lexers_static",
+    "generated_expressions_static",
+    "lex_total",
+]
+
+
+def prove(chk):
+    ok = leanio.prove(chk, "MontePyVerif.Props.C12Lexer", THEOREMS, "MontePyVerif.C12Lexer")
+    if chk.thorough:
+        leanio.leanchecker(chk, ["MontePyVerif.Props.C12Lexer"])
+    chk.trusted_base = list(chk.trusted_base) + [
+        "CPython's re._parser as the reader of the pattern syntax of tokens.py (tools/extractors/lexer_rules.py translates its "
+        "parse tree, opcode by opcode, and raises on anything else)",
+        "sly/lex.py's tokenize loop as read from its source into Model/Lexer.lean (tied by U-lexer)",
+    ]
+    return ok
 
 
 def _mp():
@@ -310,6 +343,7 @@ def shrink(drv, item):
 
 # ------------------------------------------------------------------------------------------------ the unit
 def run_unit(chk, card_texts):
+    prove(chk)
     drv = leanio.Driver(chk, "drv_lex")
     if not drv.ok:
         return
